@@ -691,6 +691,14 @@ impl Network {
                             continue;
                         }
 
+                        // a validly signed scratchpad of another owner must not displace ours
+                        if scratchpad.network_address().to_record_key() != *key {
+                            warn!(
+                                "Rejecting Scratchpad for {pretty_key}: it belongs to another address"
+                            );
+                            continue;
+                        }
+
                         if let Some(old) = &valid_scratchpad {
                             // equal counters (a forked scratchpad): pick by content hash, so that the
                             // result does not depend on the iteration order of the result map
